@@ -827,6 +827,48 @@ func genFacts(repo string) string {
 	sb.WriteString(strings.Join(delPreds, ",\n"))
 	sb.WriteString("\n]\n")
 
+	// (3b) the guard of duplicate-ack ("early") retransmission: right-hand side of every definition of
+	// a variable named satisfyEarlyRetransmission, and the abandonment test on txCount
+	sb.WriteString("\n/-- (function, right-hand side) of every definition of `satisfyEarlyRetransmission` -/\ndef earlyRetransmissionGuards : List (String × String) := [\n")
+	first = true
+	var abandon []string
+	for _, rel := range protoFiles {
+		f := load(rel)
+		if f == nil {
+			continue
+		}
+		for _, d := range f.Decls {
+			fd, ok := d.(*ast.FuncDecl)
+			if !ok || fd.Body == nil {
+				continue
+			}
+			ast.Inspect(fd.Body, func(n ast.Node) bool {
+				switch x := n.(type) {
+				case *ast.AssignStmt:
+					for i, l := range x.Lhs {
+						if id, ok := l.(*ast.Ident); ok && id.Name == "satisfyEarlyRetransmission" && i < len(x.Rhs) {
+							if !first {
+								sb.WriteString(",\n")
+							}
+							first = false
+							fmt.Fprintf(&sb, "  (%q, %q)", funcName(fd), nodeString(fset, x.Rhs[i]))
+						}
+					}
+				case *ast.IfStmt:
+					c := nodeString(fset, x.Cond)
+					if strings.Contains(c, "txCount") && strings.Contains(c, "txCountLimit") {
+						abandon = append(abandon, fmt.Sprintf("  (%q, %q)", funcName(fd), c))
+					}
+				}
+				return true
+			})
+		}
+	}
+	sb.WriteString("\n]\n")
+	sb.WriteString("\n/-- (function, condition) of every `if` that compares txCount with txCountLimit -/\ndef abandonConditions : List (String × String) := [\n")
+	sb.WriteString(strings.Join(abandon, ",\n"))
+	sb.WriteString("\n]\n")
+
 	// (4) every network write in pkg/protocol: calls whose selector is Write/WriteTo on something
 	// ending in "conn" (the underlay's network connection)
 	sb.WriteString("\n/-- (function, callee expression) of every `conn.Write`/`conn.WriteTo` in pkg/protocol -/\ndef networkWrites : List (String × String) := [\n")
